@@ -22,6 +22,10 @@ func progDump(t *plush.Template) string {
 	return sb.String()
 }
 
+// templates that fail to parse half-way through a construct (a loop header without its body, an open
+// block, an open call): parsed between the parses of other templates
+var c13poison = []string{"<% for (x) in xs %>text", "<%= for (x) in xs %>", "<% for (x) in f() %>", "<%= if (true) { %>", "<%= f(1, %>", "<% for (x) in [1, 2] { %>open", "<% let g = fn(a) { %>"}
+
 func init() {
 	register("C13", func(e *Env) {
 		renderPrelude()
@@ -74,7 +78,8 @@ func init() {
 			"<%= if (false) { %>no<% } else { %><%# c %>e<%= n %><%# d %><% } %>|<%= for (x) in [1, 2] { %><%= if (t) { %><%# c %>i<%= x %><% } %><% } %>",
 			// templates that do not parse and record SEVERAL syntax errors, some of them with the same text: the
 			// error of a template is as much a function of its text as its output is
-			"<%= f([1, g(2 %>", "<%= f(g(h([1, {a: k(2 %>", "<% if (true) { %><%= f([1, g(2 %>", "<%= f(1 %><%= g([2 %><%= h(3 %><%= k([4 %>", "<% let = 1 %><% let = 2 %><%= (1 + %><% let = 3 %>",
+			"<% if (true) { break } %>hello", "<% continue %>x", "<%= if (true) { %><% break %><% } %>y", "<% let f = fn() { continue } %>z",
+						"<%= f([1, g(2 %>", "<%= f(g(h([1, {a: k(2 %>", "<% if (true) { %><%= f([1, g(2 %>", "<%= f(1 %><%= g([2 %><%= h(3 %><%= k([4 %>", "<% let = 1 %><% let = 2 %><%= (1 + %><% let = 3 %>",
 			// partials that include themselves (one text executing while another execution of the same text is pending)
 			`<%= partial("tree", {n: 3}) %>`, `<%= partial("tree", {n: 2}) %>|<%= partial("tree", {n: 1}) %>`, `<%= partial("ping", {n: 4}) %>`,
 		)
@@ -133,6 +138,9 @@ func init() {
 							"Parse":        func() error { _, err := plush.Parse(src); return err },
 							"literal-Exec": func() error { _, err := (&plush.Template{Input: src}).Exec(plush.NewContext()); return err },
 						} {
+							// other templates - broken ones among them - are parsed in between: what a
+							// template's text means does not depend on what was parsed before it
+							_, _ = plush.Parse(c13poison[(r+len(label))%len(c13poison)])
 							err := f()
 							got := "<nil>"
 							if err != nil {
